@@ -39,7 +39,7 @@ func main() {
 		switch a[i] {
 		case "-i":
 			inputs = append(inputs, next())
-		case "-touchin", "-bg":
+		case "-touchin", "-bg", "-bglate":
 		case "-note":
 			if i+1 < len(a) && !strings.HasPrefix(a[i+1], "-") {
 				i++
